@@ -224,7 +224,7 @@ func (c *c08ctx) checkPack(s []byte, viaModel bool) {
 		res.Violate("C08.entry-points-disagree:unpack", fmt.Sprintf("packed stream decoder sees %s, Unpack gives %s", hx(alt), hx(got)), []string{uop})
 	}
 	// the four stream transformers through destination buffers of every awkward size
-	if len(s) > 0 && (len(s) <= 24 || viaModel) && len(s) <= 400 {
+	if len(s) > 0 && (len(s) <= 24 || viaModel) && len(s) <= 2000 {
 		if text, err := gsm.Decode(s); err == nil {
 			c.tinyAgrees("packed-stream-encoder", func() transform.Transformer { return gsm.GSM7(true).NewEncoder() }, text, op)
 			c.tinyAgrees("unpacked-stream-encoder", func() transform.Transformer { return gsm.GSM7(false).NewEncoder() }, text, op)
@@ -269,6 +269,22 @@ func driveTiny(t transform.Transformer, src []byte, k int) (out []byte, err erro
 	return out, fmt.Errorf("no progress"), false
 }
 
+// chunkReader delivers its data n octets per Read
+type chunkReader struct {
+	data []byte
+	n    int
+}
+
+func (r *chunkReader) Read(p []byte) (int, error) {
+	if len(r.data) == 0 {
+		return 0, io.EOF
+	}
+	k := min(min(r.n, len(r.data)), len(p))
+	copy(p, r.data[:k])
+	r.data = r.data[k:]
+	return k, nil
+}
+
 // tinyAgrees: the transformer driven through tiny destination buffers gives what transform.Bytes gives
 func (c *c08ctx) tinyAgrees(name string, mk func() transform.Transformer, src []byte, op string) {
 	want, _, werr := transform.Bytes(mk(), src)
@@ -287,6 +303,41 @@ func (c *c08ctx) tinyAgrees(name string, mk func() transform.Transformer, src []
 		if (e1 != nil || e2 != nil) != (werr != nil) || (e1 == nil && e2 == nil && !bytes.Equal(buf.Bytes(), want)) {
 			c.res.Violate("C08.entry-points-disagree:"+name, fmt.Sprintf("%s behind transform.NewWriter on %s gives %s (err=%v/%v), in one piece %s (err=%v)", name, hx(src), hx(buf.Bytes()), e1, e2, hx(want), werr), []string{op})
 			return
+		}
+	}
+	// fed in pieces, the way x/text feeds any Transformer: transform.String cuts its input every 128 octets,
+	// a Reader transforms whatever one Read of the source delivered, a Writer transforms every Write as it comes
+	if len(src) > 0 && len(src) <= 3000 {
+		got, _, err := transform.String(mk(), string(src))
+		c.res.Eval(fmt.Sprintf("string/%s/%s", name, hx(src[:min(len(src), 40)])), true)
+		if (err != nil) != (werr != nil) || (err == nil && got != string(want)) {
+			c.res.Violate("C08.entry-points-disagree:"+name+"-chunked", fmt.Sprintf("%s through transform.String on %d octets gives %s (err=%v), in one piece %s (err=%v)", name, len(src), hx([]byte(got)[:min(len(got), 60)]), err, hx(want[:min(len(want), 60)]), werr), []string{op})
+			return
+		}
+		for _, chunk := range []int{1, 3, 7} {
+			if len(src) > 600 && chunk == 1 {
+				continue
+			}
+			got, err := io.ReadAll(transform.NewReader(&chunkReader{data: src, n: chunk}, mk()))
+			if (err != nil) != (werr != nil) || (err == nil && !bytes.Equal(got, want)) {
+				c.res.Violate("C08.entry-points-disagree:"+name+"-chunked", fmt.Sprintf("%s behind transform.NewReader, source delivered %d octets at a time, on %s gives %s (err=%v), in one piece %s (err=%v)", name, chunk, hx(src[:min(len(src), 40)]), hx(got[:min(len(got), 60)]), err, hx(want[:min(len(want), 60)]), werr), []string{op})
+				return
+			}
+		}
+		for _, cut := range []int{1, len(src) / 2, len(src) - 1} {
+			if cut <= 0 || cut >= len(src) {
+				continue
+			}
+			var buf bytes.Buffer
+			wr := transform.NewWriter(&buf, mk())
+			_, e1 := wr.Write(src[:cut])
+			_, e2 := wr.Write(src[cut:])
+			e3 := wr.Close()
+			bad := e1 != nil || e2 != nil || e3 != nil
+			if bad != (werr != nil) || (!bad && !bytes.Equal(buf.Bytes(), want)) {
+				c.res.Violate("C08.entry-points-disagree:"+name+"-chunked", fmt.Sprintf("%s behind transform.NewWriter, written as %d + %d octets, on %s gives %s (err=%v/%v/%v), in one piece %s (err=%v)", name, cut, len(src)-cut, hx(src[:min(len(src), 40)]), hx(buf.Bytes()[:min(buf.Len(), 60)]), e1, e2, e3, hx(want[:min(len(want), 60)]), werr), []string{op})
+				return
+			}
 		}
 	}
 	for _, k := range []int{0, 1, 2, len(src) / 2, len(src) - 1, len(src), len(src) + 1} {
@@ -328,7 +379,7 @@ func packedDecoderSeptets(packed []byte) ([]byte, error) {
 }
 
 func runC08(res *Result, d *Driver, g *Rng, tier string) {
-	res.Rule = "alphabet: every code point (quick: 0..0x2FFF, all of TS 23.038's characters, surrogate/astral samples; thorough: all 1,114,112) and all 256x256 septet pairs; packing: all septet sequences of length 0..2 (thorough 0..3), all sequences up to length 5 (thorough 8) over {00,01,0d,1b,3f,40,7f}, the three septets around every block boundary for lengths 1..40, random sequences to 2000, one-bit wiring for every bit of every length 0..64; the four stream transformers behind transform.NewReader / NewWriter and driven by hand through destination buffers of 0, 1, 2, n/2, n-1, n, n+1 octets; non-trivial = distinct non-empty input"
+	res.Rule = "alphabet: every code point (quick: 0..0x2FFF, all of TS 23.038's characters, surrogate/astral samples; thorough: all 1,114,112) and all 256x256 septet pairs; packing: all septet sequences of length 0..2 (thorough 0..3), all sequences up to length 5 (thorough 8) over {00,01,0d,1b,3f,40,7f}, the three septets around every block boundary for lengths 1..40, random sequences to 2000, one-bit wiring for every bit of every length 0..64; the four stream transformers behind transform.NewReader / NewWriter / transform.String, whole and fed in pieces (source delivered 1, 3, 7 octets at a time, two writes), and driven by hand through destination buffers of 0, 1, 2, n/2, n-1, n, n+1 octets; non-trivial = distinct non-empty input"
 	thorough := tier == "thorough"
 	c := &c08ctx{res: res}
 	// --- alphabet, forward ---
